@@ -25,6 +25,7 @@ macro_rules! dispatch {
             "C20" => $f(worlds::store::StoreWorld, $($arg),*),
             "C07" => $f(worlds::agenda::AgendaWorld, $($arg),*),
             "C06" => $f(worlds::rete::ReteWorld, $($arg),*),
+            "C02" => $f(worlds::fwd::FwdWorld, $($arg),*),
             other => {
                 eprintln!("no simulation world serves property {other}");
                 2
